@@ -100,6 +100,8 @@ static _Bool EV_source_stop_requested(struct inplace_stop_source* src) {
   G.stop_requested_queries++;
   return G.requested;
 }
+/* the fused source's own (inherited) stop flag: may have been set by anyone at any time */
+static _Bool EV_fss_stop_requested(void* self) { VF_P(self != NULL, "stop_requested() of the fused source itself"); return VF_nondet_bool(); }
 #define VF_CB_ALIVE(p) ({ VF_P(!G.cb_dead, "a stop callback does not touch itself after request_stop() returned (it may have been deregistered from inside)"); (p); })
 
 /* StopToken::callback_type<F>(token, f): registers on the upstream token; may throw (strong guarantee) where the caller allows it;
